@@ -24,7 +24,7 @@ extern "C" {
 size_t __sanitizer_get_allocated_size(const volatile void*);
 int __sanitizer_install_malloc_and_free_hooks(void (*)(const volatile void*, size_t), void (*)(const volatile void*));
 // defaults for runs outside ./check (the environment set by ./check overrides them flag by flag)
-const char* __asan_default_options() { return "detect_leaks=1:abort_on_error=0:exitcode=97:allocator_may_return_null=1:detect_stack_use_after_return=0"; }
+const char* __asan_default_options() { return "detect_leaks=1:abort_on_error=0:exitcode=97:allocator_may_return_null=1:detect_stack_use_after_return=0:quarantine_size_mb=32"; }
 const char* __ubsan_default_options() { return "print_stacktrace=1:halt_on_error=1:exitcode=98"; }
 }
 
